@@ -470,10 +470,11 @@ def outcome_names(fn: ast.FunctionDef) -> Set[str]:
 
 
 def _depends_on_outcome(e: ast.AST, fi: FuncInfo, cfg: CFG, at: Node, depth: int = 0) -> bool:
+    drawn = outcome_names(fi.node) | {"result"}        # whatever the local that receives the sampler's result is called
     for x in [e] + list(ast.walk(e)):
         if isinstance(x, ast.Subscript) and src(x.value) in ("outcomes", "results"):
             return True
-        if isinstance(x, ast.Name) and x.id in ("choice", "outcome", "result"):
+        if isinstance(x, ast.Name) and x.id in drawn:
             return True
     if depth < 6:
         for x in ast.walk(e):
